@@ -338,6 +338,52 @@ pub fn check(prop: &str, tier: &str) -> i32 {
     if m.leaves == 0 {
         m.machinery_errors.push("no leaf was explored".into());
     }
+    // C17: results of the fine-grained schedule exploration (separate nightly build, started by ./check)
+    if let Ok(dir) = std::env::var("JLMC_FINE_DIR") {
+        if dir.starts_with("BUILD-FAILED") {
+            m.machinery_errors.push(format!("the fine-grained E3 harness did not build ({})", dir));
+        } else {
+            let (mut scheds, mut points, mut maxp, mut cfgs, mut divs, mut files) = (0u64, 0u64, 0u64, 0u64, 0u64, 0u64);
+            if let Ok(rd) = fs::read_dir(&dir) {
+                for e in rd.flatten() {
+                    if e.path().extension().map(|x| x == "json").unwrap_or(false) {
+                        files += 1;
+                        let v: Value = fs::read_to_string(e.path()).ok().and_then(|t| serde_json::from_str(&t).ok()).unwrap_or(Value::Null);
+                        for r in v["results"].as_array().cloned().unwrap_or_default() {
+                            cfgs += 1;
+                            scheds += r["schedules"].as_u64().unwrap_or(0);
+                            points += r["points_total"].as_u64().unwrap_or(0);
+                            maxp = maxp.max(r["max_points"].as_u64().unwrap_or(0));
+                            divs += r["replay_divergences"].as_u64().unwrap_or(0);
+                            if r["capped"].as_bool().unwrap_or(false) {
+                                m.machinery_errors.push(format!("fine-grained E3: schedule cap hit in {}", r["config"]));
+                            }
+                            for viol in r["violations"].as_array().cloned().unwrap_or_default() {
+                                m.violation_count += 1;
+                                m.violations.push(json!({
+                                    "sub": "schedule:function-entry-granularity", "profile": "fine",
+                                    "case": {"config": r["config"], "threads": r["threads"], "schedule": viol["schedule"], "fine": true},
+                                    "expected": viol["expected"], "actual": viol["actual"], "site": Value::Null
+                                }));
+                            }
+                        }
+                    }
+                }
+            }
+            if files < 16 {
+                m.machinery_errors.push(format!("fine-grained E3: only {} of 16 shard results were written (a shard died?)", files));
+            }
+            m.states += points + scheds;
+            m.transitions += points;
+            m.leaves += scheds;
+            m.evaluations += scheds;
+            *m.subspaces.entry("schedule:function-entry-granularity".into()).or_insert(0) += scheds;
+            m.extra.insert("fine_grained_E3".into(), json!({
+                "what": "tree under test compiled with -Z instrument-mcount at opt-level 0: every function entry (incl. monomorphised std generics such as Mutex::lock / RwLock::read) is a scheduling point; all schedules with at most one preemption",
+                "configs": cfgs, "schedules": scheds, "scheduling_points_total": points, "max_points_per_execution": maxp, "replays_that_did_not_reproduce": divs
+            }));
+        }
+    }
     // proviso for C17: verdict of the free-running miri run started by ./check (thorough tier)
     if let (Ok(log), Ok(status)) = (std::env::var("JLMC_MIRI_LOG"), std::env::var("JLMC_MIRI_STATUS")) {
         let txt = fs::read_to_string(&log).unwrap_or_default();
